@@ -378,8 +378,118 @@ fn check_tok(ctx: &mut Ctx, c: &TokCase) -> Outcome {
     check_tokens(ctx, &["x/r".to_string()], &tokens, false)
 }
 
+// ---- which primaries count as actions (default -print applies iff there is none) -----------
+
+#[derive(Serialize, Deserialize, Debug, Clone)]
+pub struct ActionCase {
+    /// index into action_table()
+    pub which: usize,
+    /// 0 "-false A"; 1 "-true -o A"; 2 "! ( -false A )"; 3 "( -false -o -false ) , -false A" hmm: see code
+    pub shape: u8,
+}
+
+/// (tokens, is an action per the statement)
+fn action_table() -> Vec<(Vec<String>, bool)> {
+    let s = |x: &str| x.to_string();
+    let rec = crate::engine::proc::rec_bin().to_string_lossy().into_owned();
+    vec![
+        (vec![s("-print")], true),
+        (vec![s("-print0")], true),
+        (vec![s("-printf"), s("X:%p\\n")], true),
+        (vec![s("-fprint"), s("c/out1")], true),
+        (vec![s("-fprint0"), s("c/out1")], true),
+        (vec![s("-fprintf"), s("c/out1"), s("%p\\n")], true),
+        (vec![s("-ls")], true),
+        (vec![s("-fls"), s("c/out1")], true),
+        (vec![s("-exec"), rec.clone(), s("{}"), s(";")], true),
+        (vec![s("-execdir"), rec.clone(), s("{}"), s(";")], true),
+        (vec![s("-exec"), rec.clone(), s("{}"), s("+")], true),
+        (vec![s("-execdir"), rec, s("{}"), s("+")], true),
+        (vec![s("-delete")], true),
+        (vec![s("-prune")], false),
+        (vec![s("-quit")], false),
+        (vec![s("-true")], false),
+        (vec![s("-depth")], false),
+        (vec![s("-maxdepth"), s("5")], false),
+    ]
+}
+
+/// The action is placed where evaluation never reaches it, so the only observable is whether the
+/// implied -print was added: stdout must be empty when the primary is an action and must list every
+/// entry when it is not; nothing may be executed or removed either way.
+fn check_action(ctx: &mut Ctx, c: &ActionCase) -> Outcome {
+    use crate::engine::fsx::snapshot;
+    ctx.fresh_case_dir();
+    let mut t = TreeSpec::default();
+    for (p, k) in [("c/r", Kind::Dir), ("c/r/a", Kind::Dir), ("c/r/a/f", Kind::File), ("c/r/b", Kind::File), ("c/r/e", Kind::Dir), ("c/r/l", Kind::Link("a".into()))] {
+        t.nodes.push(Node::new(p, k));
+    }
+    t.build();
+    let table = action_table();
+    let (act, is_action) = &table[c.which % table.len()];
+    let s = |x: &str| x.to_string();
+    let mut tokens: Vec<String> = vec![s("-sorted")];
+    // every shape yields TRUE on every entry without ever evaluating `act`
+    match c.shape {
+        0 => {
+            tokens.extend([s("-true"), s("-o")]);
+            tokens.extend(act.iter().cloned());
+        }
+        1 => {
+            tokens.extend([s("!"), s("("), s("-false")]);
+            tokens.extend(act.iter().cloned());
+            tokens.push(s(")"));
+        }
+        2 => {
+            tokens.extend([s("("), s("-false")]);
+            tokens.extend(act.iter().cloned());
+            tokens.extend([s(")"), s(","), s("-true")]);
+        }
+        _ => {
+            tokens.extend([s("-true"), s("-o"), s("("), s("!")]);
+            tokens.extend(act.iter().cloned());
+            tokens.push(s(")"));
+        }
+    }
+    let log = ctx.root.join("rec.log");
+    let _ = std::fs::remove_file(&log);
+    std::env::set_var("VERIF_REC_LOG", &log);
+    std::env::set_var("VERIF_REC_SCRIPT", "");
+    let before = snapshot("c/r");
+    let mut args: Vec<&str> = vec!["c/r"];
+    args.extend(tokens.iter().map(|t| t.as_str()));
+    let o = ctx.find(&args);
+    let after = snapshot("c/r");
+    let desc = format!("find {args:?}\nexit {} stdout {:?} stderr {:?}", o.status, lossy(&o.stdout), lossy(&o.stderr));
+    if let Some(p) = o.panic {
+        return fail(format!("C01:panic:{}", p.split(": ").next().unwrap_or("?")), format!("{desc}\n{p}"));
+    }
+    if before != after || std::fs::metadata(&log).map(|m| m.len() > 0).unwrap_or(false) {
+        return fail(format!("C01:unreachable-action-took-effect:{}", act[0]), desc);
+    }
+    // -depth / -delete change the order, not the set: compare as sorted line sets
+    let mut got: Vec<String> = lossy(&o.stdout).lines().map(|l| l.to_string()).collect();
+    got.sort();
+    let mut all: Vec<String> = before.keys().cloned().collect();
+    all.sort();
+    let want: Vec<String> = if *is_action { vec![] } else { all };
+    if got != want || o.status != 0 {
+        let what = if *is_action { "default-print-added-although-expression-has-an-action" } else { "default-print-missing-although-expression-has-no-action" };
+        return fail(format!("C01:{what}:{}", act[0]), desc);
+    }
+    Pass::new(true).class("has-action-rule").class_if(*is_action, "action-primary").sample(json!({"cmdline": format!("find {}", args.join(" ")), "is_action": is_action})).ok()
+}
+
 fn run(w: &mut Worker) {
     w.regress::<Case>("expr", check);
+    let n_actions = action_table().len();
+    let mut ac = vec![];
+    for which in 0..n_actions {
+        for shape in 0..4u8 {
+            ac.push(ActionCase { which, shape });
+        }
+    }
+    w.exhaustive("has-action", "every action primary (and five non-actions) x four placements in which it is never evaluated (unreachable, nested, negated): the implied -print is added iff the primary is not an action", ac.into_iter(), check_action);
     w.regress::<TokCase>("tokens", check_tok);
     let max_len = w.tier.pick(6, 7);
     w.exhaustive("tokens", &format!("all accepted token sequences of length 1..={max_len} over an 11-token alphabet"), TokenSeqs { len: 1, max_len, idx: vec![0], done: false }, check_tok);
@@ -387,6 +497,9 @@ fn run(w: &mut Worker) {
 }
 
 fn replay(w: &mut Worker, sub: &str, v: Value) -> Outcome {
+    if sub == "has-action" {
+        return check_action(&mut w.ctx, &decode(v));
+    }
     match sub {
         "tokens" => check_tok(&mut w.ctx, &decode(v)),
         _ => check(&mut w.ctx, &decode(v)),
